@@ -11,6 +11,7 @@ mod c11;
 mod c12;
 mod c14;
 mod c17;
+mod c18;
 mod c20;
 mod c21;
 mod c22;
@@ -42,6 +43,7 @@ pub fn run(item: &str, repo: &str, out: &str) -> Result<String, String> {
         c12::run,
         c14::run,
         c17::run,
+        c18::run,
         c20::run,
         c21::run,
         c22::run,
